@@ -77,6 +77,15 @@ pub trait VecOps<const N: usize>: Fields<Tracked> {
     /// Addresses of the items produced by `iter_mut()` (kind 4) / `(&mut v).into_iter()` (kind 5); never dereferenced.
     fn iter_mut_addrs(&mut self, kind: usize) -> Vec<usize>;
     fn elem_count_(&self) -> usize;
+    /// closures that call `ledger::tick()` (panic injection), for the unwinding checks
+    fn map_tick(self) -> Self;
+    fn map_consume_tick(self) -> Self::Ids;
+    fn map2_tick(self, other: Self) -> Self::Pairs;
+    fn map3_tick(self, b: Self, c: Self) -> Self::Pairs;
+    /// `reduce` keeping the left argument and consuming the right one
+    fn reduce_tick(self) -> Tracked;
+    fn reduce_min_(self) -> Tracked;
+    fn reduce_max_(self) -> Tracked;
     /// hands the `iter()` object itself (not its slice) to `f`
     fn with_iter_debug(&self, f: &mut dyn FnMut(&dyn Debug));
     /// hands the `iter_mut()` object itself to `f`
@@ -148,6 +157,13 @@ macro_rules! impl_vecops {
                 }
             }
             fn elem_count_(&self) -> usize { self.elem_count() }
+            fn map_tick(self) -> Self { self.map(|t| { ledger::tick(); t }) }
+            fn map_consume_tick(self) -> Self::Ids { self.map(|t| { let id = eat(t); ledger::tick(); id }) }
+            fn map2_tick(self, other: Self) -> Self::Pairs { self.map2(other, |a, b| { ledger::tick(); (a, b) }) }
+            fn map3_tick(self, b: Self, c: Self) -> Self::Pairs { self.map3(b, c, |x, y, z| { eat(y); ledger::tick(); (x, z) }) }
+            fn reduce_tick(self) -> Tracked { self.reduce(|a, b| { eat(b); ledger::tick(); a }) }
+            fn reduce_min_(self) -> Tracked { self.reduce_min() }
+            fn reduce_max_(self) -> Tracked { self.reduce_max() }
             fn with_iter_debug(&self, f: &mut dyn FnMut(&dyn Debug)) { let it = self.iter(); f(&it) }
             fn with_iter_mut_debug(&mut self, f: &mut dyn FnMut(&dyn Debug)) { let it = self.iter_mut(); f(&it) }
         }
@@ -203,6 +219,10 @@ pub trait MatOps<const N: usize, const NN: usize>: Sized {
     fn map2_left(self, other: Self) -> Self;
     /// `map_rows(|r| r)` / `map_cols(|c| c)`.
     fn map_lines_identity(self) -> Self;
+    /// closures that call `ledger::tick()` (panic injection), for the unwinding checks
+    fn map_tick(self) -> Self;
+    fn map2_tick(self, other: Self) -> Self;
+    fn map_lines_tick(self) -> Self;
     /// `diagonal()` moved into a Vec through the result's public fields.
     fn diagonal_(self) -> Vec<Tracked>;
     /// `as_row_slice` (row-major) / `as_col_slice` (column-major).
@@ -236,6 +256,8 @@ macro_rules! impl_matops {
         fn map_identity(self) -> Self { self.map(|t| t) }
         fn map_consume(self) -> Self::Ids { self.map(eat) }
         fn map2_left(self, other: Self) -> Self { self.map2(other, |a, b| { eat(b); a }) }
+        fn map_tick(self) -> Self { self.map(|t| { ledger::tick(); t }) }
+        fn map2_tick(self, other: Self) -> Self { self.map2(other, |a, b| { eat(b); ledger::tick(); a }) }
         fn diagonal_(self) -> Vec<Tracked> {
             let d = self.diagonal();
             let $V { $($d),+ } = d;
@@ -256,6 +278,7 @@ macro_rules! impl_matops {
             fn at_mut(&mut self, i: usize, j: usize) -> &mut Tracked { self.rows.fld_mut(i).fld_mut(j) }
             impl_matops!(@common $Mat, $V, $n, $nn, ($($q)+), ($($d)+));
             fn map_lines_identity(self) -> Self { self.map_rows(|r| r) }
+            fn map_lines_tick(self) -> Self { self.map_rows(|r| { ledger::tick(); r }) }
             fn native_slice(&self) -> &[Tracked] { self.as_row_slice() }
             fn native_slice_mut(&mut self) -> &mut [Tracked] { self.as_mut_row_slice() }
             fn native_ptr(&self) -> *const Tracked { self.as_row_ptr() }
@@ -277,6 +300,7 @@ macro_rules! impl_matops {
             fn at_mut(&mut self, i: usize, j: usize) -> &mut Tracked { self.cols.fld_mut(j).fld_mut(i) }
             impl_matops!(@common $Mat, $V, $n, $nn, ($($q)+), ($($d)+));
             fn map_lines_identity(self) -> Self { self.map_cols(|c| c) }
+            fn map_lines_tick(self) -> Self { self.map_cols(|c| { ledger::tick(); c }) }
             fn native_slice(&self) -> &[Tracked] { self.as_col_slice() }
             fn native_slice_mut(&mut self) -> &mut [Tracked] { self.as_mut_col_slice() }
             fn native_ptr(&self) -> *const Tracked { self.as_col_ptr() }
